@@ -197,3 +197,104 @@ func VerifH_C12_long_brackets() {
 	verifAssert(err == nil, "valid-long-string-accepted")
 	verifAssert(err != nil || (len(res) == 1 && vhSameValue(res[0], StringValue(want+"z"))), "long-string-value-is-raw-content")
 }
+
+// escape sequences in quoted strings: "\" + up to 2 (quick) / 3 (thorough)
+// bytes over an alphabet that spells decimal, hexadecimal, character and \z
+// escapes, followed by the literal 'q': the string's value is what the manual
+// prescribes, or the chunk is rejected exactly when the manual says the escape
+// is invalid
+func vhEscAlphabet(c byte) bool {
+	return c == '0' || c == '1' || c == '2' || c == '9' || c == 'x' || c == 'a' || c == 'F' || c == 'n' || c == 'z' || c == ' ' || c == '\\' || c == '"' || c == 'q'
+}
+
+func vhIsHex(c byte) bool {
+	return (c >= '0' && c <= '9') || (c >= 'a' && c <= 'f') || (c >= 'A' && c <= 'F')
+}
+
+func vhHexVal(c byte) int {
+	switch {
+	case c >= '0' && c <= '9':
+		return int(c - '0')
+	case c >= 'a' && c <= 'f':
+		return int(c-'a') + 10
+	}
+	return int(c-'A') + 10
+}
+
+// specQuoted decodes the body of a double-quoted string (without the quotes);
+// ok == false: the manual makes the literal invalid; closed == false: the body
+// contains an unescaped quote (the literal ends early — excluded by the caller)
+func specQuoted(body string) (out []byte, ok bool, closed bool) {
+	i := 0
+	for i < len(body) {
+		c := body[i]
+		i++
+		if c == '"' {
+			return nil, true, false
+		}
+		if c != '\\' {
+			out = append(out, c)
+			continue
+		}
+		if i >= len(body) {
+			return nil, true, false // a backslash escaping the closing quote
+		}
+		e := body[i]
+		i++
+		switch {
+		case e == 'n':
+			out = append(out, 10)
+		case e == 'a':
+			out = append(out, 7)
+		case e == '\\' || e == '"':
+			out = append(out, e)
+		case e == 'z':
+			for i < len(body) && body[i] == ' ' {
+				i++
+			}
+		case e == 'x':
+			if i+1 >= len(body) || !vhIsHex(body[i]) || !vhIsHex(body[i+1]) {
+				return nil, false, true
+			}
+			out = append(out, byte(vhHexVal(body[i])*16+vhHexVal(body[i+1])))
+			i += 2
+		case e >= '0' && e <= '9':
+			v := int(e - '0')
+			for k := 0; k < 2 && i < len(body) && body[i] >= '0' && body[i] <= '9'; k++ {
+				v = v*10 + int(body[i]-'0')
+				i++
+			}
+			if v > 255 {
+				return nil, false, true
+			}
+			out = append(out, byte(v))
+		default:
+			return nil, false, true // 'F', 'q', ' ' after a backslash
+		}
+	}
+	return out, true, true
+}
+
+func VerifH_C12_string_escapes() {
+	maxn := 2
+	if verifTier() == 1 {
+		maxn = 3
+	}
+	n := 1 + verifChoose("n", maxn)
+	esc := nondetString("esc", n)
+	for i := 0; i < n; i++ {
+		verifAssume(vhEscAlphabet(esc[i]))
+	}
+	body := "\\" + esc + "q"
+	want, valid, closed := specQuoted(body)
+	verifAssume(closed) // stated restriction: no unescaped quote inside the body
+	_, res, err := vhRunChunk("return \"" + body + "\"")
+	if !valid {
+		verifReach("invalid-escape")
+		verifAssert(err != nil, "invalid-escape-sequence-is-rejected")
+		return
+	}
+	verifReach("valid-escape")
+	verifAssert(err == nil, "valid-string-literal-accepted")
+	verifAssert(err != nil || (len(res) == 1 && vhSameValue(res[0], StringValue(string(want)))), "escape-sequence-denotes-the-manuals-bytes")
+}
